@@ -37,6 +37,7 @@ struct Obj {
 // output
 
 extern std::string g_out;
+extern std::string g_abort_note; // written by the SIGABRT handler before the process dies
 void emit(const std::string& line);
 
 template<typename T>
@@ -256,7 +257,7 @@ struct Engine : EngineBase {
         int k;
         void* pool[kDefs];                        // definition functions
         void** next[kDefs];                       // addresses of the `next` cells
-        std::function<int(const std::vector<type_id>&, int route)> call;
+        std::function<int(const std::vector<type_id>&, int route, const std::vector<const void*>& pre)> call;
         std::vector<int> kinds; // 0 V, 1 P, 2 N
     };
 
@@ -280,6 +281,11 @@ struct Engine : EngineBase {
     };
     std::map<long, MethodRecord> methods_; // by key
 
+    struct Var {
+        std::shared_ptr<Obj> obj;
+        std::optional<virtual_ptr<Obj, Policy>> vp;
+    };
+    std::map<std::string, Var> vars_;
     std::optional<compiler_t> comp_;
     std::string name_;
     bool handler_returns_ = false;
@@ -391,7 +397,7 @@ void Engine<Policy>::make_slot(shape<Tags...>) {
         std::integral_constant<int, 4>{}, std::integral_constant<int, 5>{},
         std::integral_constant<int, 6>{}, std::integral_constant<int, 7>{});
     // route: 0 = virtual_ptr arguments built from a reference; 1 = built with final
-    ms.call = [](const std::vector<type_id>& ids, int route) -> int {
+    ms.call = [](const std::vector<type_id>& ids, int route, const std::vector<const void*>& pre) -> int {
         std::vector<std::unique_ptr<Obj>> objs;
         std::size_t next_id = 0;
         int pos = 0;
@@ -401,6 +407,14 @@ void Engine<Policy>::make_slot(shape<Tags...>) {
             if constexpr (std::is_same_v<Tag, N>) {
                 return 100 + pos;
             } else {
+                if constexpr (std::is_same_v<Tag, P>) {
+                    if (std::size_t(pos) <= pre.size() && pre[pos - 1]) {
+                        // an existing virtual_ptr: copy it
+                        ++next_id;
+                        return virtual_ptr<Obj, Policy>(
+                            *static_cast<const virtual_ptr<Obj, Policy>*>(pre[pos - 1]));
+                    }
+                }
                 objs.push_back(std::make_unique<Obj>(ids.at(next_id++)));
                 if constexpr (std::is_same_v<Tag, V>) {
                     return static_cast<Obj&>(*objs.back());
